@@ -605,7 +605,14 @@ def dev_unit(unit, vacuity=True):
         for s in f['spans']:
             print('       gen:%s %s %s | %s' % (s['gen_line'], 'P' if s['primary'] else ' ', s['label'] or '', s['text'][:100]))
     if r.status == 'error':
-        print(r.raw_err[-3000:])
+        for ln in r.raw_err.split('\n'):
+            if ln.startswith('{'):
+                try:
+                    print(json.loads(ln).get('rendered', '')[:1500])
+                except ValueError:
+                    print(ln[:300])
+            elif ln.strip():
+                print(ln[:300])
     if r.vacuity:
         print('  vacuity: %s' % r.vacuity)
     tot = sum(r.obligations.values())
